@@ -1,275 +1,353 @@
 import AasVerif.Lemmas.InferSafe
 import AasVerif.Lemmas.BoolForm
+import AasVerif.Lemmas.DeclsWF
 import AasVerif.Gen.Infer
 /-!
 # C07 — type-checked invariants cannot fail at run time
 
-`infer` (`Model/Expr/Infer.lean`) is the faithful model of `type_inference._Inferrer`, `eval`
-(`Model/Expr/Eval.lean`, shared with C08) the Python meaning of an invariant, `HasTy` /
-`Conforms` (`Model/Expr/Conforms.lean`) "the instance conforms to the declared types".
+`infer` / `inferInv` (`Model/Expr/Infer.lean`) is the faithful model of `type_inference._Inferrer` /
+`infer_for_invariant`, `acceptsPy` adds the one check on the types that the Python transpiler makes
+itself (`len`), `eval` (`Model/Expr/Eval.lean`, shared with C08) is the Python meaning of an
+invariant, `HasTy` / `Conforms` (`Model/Expr/Conforms.lean`) "the instance conforms to the declared
+types".
+
+Since the repairs of the findings C07-F1 … F4 (operand types of ordering comparisons and of `in`,
+boolean contexts, call arguments) the full statement holds of the model: `sound`.
 -/
 namespace AasVerif.Props.C07
 open AasVerif AasVerif.Expr
 
-/-! ## Full strength (FALSE of the faithful model)
+/-! ## The property -/
 
-    sound : inferC Γ e = ok τ → Conforms ρ Γ → eval ρ e ∈ {val v | v : τ} ∪ {indexError}
--/
+/-- The property as stated: an invariant that the Python generator accepts evaluates, on an instance
+that conforms to the declared types, to a boolean — or raises `IndexError`, which no type system
+can exclude.  (No `TypeError`, no `AttributeError`, on `None` or otherwise, no other exception.)
 
-/-- The property as stated: an accepted invariant evaluates, on a conforming instance, to a
-value of the inferred type, or raises `IndexError`. -/
+Hypotheses: `e.wf` — what the parser produces (`and` / `or` have operands); `noFnValuesB` — no
+function or bound method is used as a first-class value (`len == len`; CPython has such values, the
+evaluator `Eval.lean` has not; the harness evaluates those invariants in CPython); `D.WF` — decidable
+(`Decls.wfb`, `wfb_sound`), evaluated by the harness on every real symbol table; `Conforms` — the
+instance; `EnvOK`, `CallsOK` — the *parameters* of the evaluation (float operations, formatting,
+verification functions, methods): implemented, and well-behaved on arguments of their declared types. -/
 def Sound : Prop :=
   ∀ (D : Decls) (self : Text) (ρ : Env) (e : Expr) (τ : Ty),
-    inferC (TEnv.forSelf D self) e = .ok τ → D.WF → Conforms ρ (TEnv.forSelf D self) → EnvSafe ρ →
-    CallsConform ρ (TEnv.forSelf D self) →
-    eval ρ e = .indexError ∨ ∃ v, eval ρ e = .val v ∧ HasTy D v τ
+    acceptsPy (TEnv.forSelf D self) e = .ok τ →
+    e.wf = true → noFnValuesB canon (TEnv.forSelf D self).withBackend [] e = true →
+    D.WF → Conforms ρ (TEnv.forSelf D self) → EnvOK ρ → CallsOK ρ (TEnv.forSelf D self) →
+    eval ρ e = .indexError ∨ ∃ b, eval ρ e = .val (.bool b)
 
-/-! ### The witness `self.s < 1` with `s : str` -/
+/-- **Type soundness of the inferrer** (whole expression language, `any`/`all` included, any key
+function with `KeySound`): an accepted expression evaluates to a value *of the inferred type*, or
+raises `IndexError`. -/
+theorem sound_typed {κ : Type} [DecidableEq κ] {key : Expr → κ} (hk : KeySound key)
+    (Γ : TEnv) (ρ : Env) (e : Expr) (τ : Ty) (hb : Γ.backend = true)
+    (hw : e.wf = true) (hfn : noFnValuesB key Γ [] e = true)
+    (hwf : Γ.decls.WF) (hconf : Conforms ρ Γ) (hok : EnvOK ρ) (hcalls : CallsOK ρ Γ)
+    (h : infer key Γ [] e = .ok τ) :
+    eval ρ e = .indexError ∨ ∃ v, eval ρ e = .val v ∧ HasTy Γ.decls v τ :=
+  safe_expr hk e Γ [] ρ τ
+    { conf := hconf, wf := hwf, ok := hok, calls := hcalls, facts := by intro e he; simp at he } hb hw hfn h
 
-def t (s : String) : Text := Text.ofString s
+theorem inferInv_ok {κ : Type} [DecidableEq κ] {key : Expr → κ} {Γ : TEnv} {e : Expr} {τ : Ty}
+    (h : inferInv key Γ e = .ok τ) : infer key Γ [] e = .ok τ ∧ Γ.decls.isBool τ = true := by
+  unfold inferInv at h
+  cases hi : infer key Γ [] e with
+  | ok σ =>
+    simp only [hi] at h
+    by_cases hb : Γ.decls.isBool σ = true
+    · simp only [hb, if_true, Res.ok.injEq] at h
+      subst h
+      exact ⟨rfl, hb⟩
+    · simp [hb] at h
+  | err es => simp [hi] at h
+  | crash s => simp [hi] at h
 
-/-- one class `C` with one property `s : str` -/
-def D0 : Decls :=
-  { ours := [(t "C", .cls { props := [(t "s", .prim .str)], methods := [], descendants := [] })], fns := [], consts := [] }
+/-- The invariant-level statement for any sound key function. -/
+theorem sound_invariant {κ : Type} [DecidableEq κ] {key : Expr → κ} (hk : KeySound key)
+    (Γ : TEnv) (ρ : Env) (e : Expr) (τ : Ty) (hb : Γ.backend = true)
+    (hw : e.wf = true) (hfn : noFnValuesB key Γ [] e = true)
+    (hwf : Γ.decls.WF) (hconf : Conforms ρ Γ) (hok : EnvOK ρ) (hcalls : CallsOK ρ Γ)
+    (h : inferInv key Γ e = .ok τ) :
+    eval ρ e = .indexError ∨ ∃ b, eval ρ e = .val (.bool b) := by
+  obtain ⟨hi, hbool⟩ := inferInv_ok h
+  rcases sound_typed hk Γ ρ e τ hb hw hfn hwf hconf hok hcalls hi with he | ⟨v, he, hv⟩
+  · exact Or.inl he
+  · obtain ⟨b, rfl⟩ := isBool_inv hv hbool
+    exact Or.inr ⟨b, he⟩
 
-/-- `self.s < 1` -/
-def e0 : Expr := .cmp (.member (.name (t "self")) (t "s")) .lt (.const (.int 1))
+/-- **sound**: the property, for the real keys (`canon`) under the one thing the proof needs of
+them — which is *validated, not verified*: the harness checks on every generated invariant that
+sub-expressions with equal canonical strings are equal up to `f"lit"` = `"lit"` (stream
+`canon-injective`).  (It does not hold for identifiers that contain `.`, brackets or spaces, which
+the Python parser cannot produce.) -/
+theorem sound (hcanon : KeySound canon) : Sound := by
+  intro D self ρ e τ hacc hw hfn hwf hconf hok hcalls
+  exact sound_invariant hcanon (TEnv.forSelf D self).withBackend ρ e τ rfl hw hfn hwf hconf hok
+    { notVar := hcalls.notVar, builtin := hcalls.builtin, funs := hcalls.funs, meths := hcalls.meths } hacc
 
-def fops0 : FloatOps :=
-  { cmp := fun _ _ _ => .typeError, arith := fun _ _ _ => .typeError, isZero := fun _ => false, fmt := fun r => r }
+/-- In particular no `TypeError`, no `AttributeError` on `None`, no other exception. -/
+theorem never_raises (hcanon : KeySound canon) (D : Decls) (self : Text) (ρ : Env) (e : Expr) (τ : Ty)
+    (hacc : acceptsPy (TEnv.forSelf D self) e = .ok τ)
+    (hw : e.wf = true) (hfn : noFnValuesB canon (TEnv.forSelf D self).withBackend [] e = true)
+    (hwf : D.WF) (hconf : Conforms ρ (TEnv.forSelf D self)) (hok : EnvOK ρ)
+    (hcalls : CallsOK ρ (TEnv.forSelf D self)) :
+    (match eval ρ e with | .typeError | .noneDeref | .otherError => False | _ => True) := by
+  rcases sound hcanon D self ρ e τ hacc hw hfn hwf hconf hok hcalls with h | ⟨b, h⟩ <;> rw [h] <;> trivial
 
-/-- `self = C(s="a")` -/
-def ρ0 : Env :=
-  { vars := [(t "self", .inst 0 (t "C") [(t "s", .str (t "a"))])], funs := fun _ => none, meths := fun _ _ => none,
-    fops := fops0, fmtOther := fun _ => .otherError }
-
-/-- the inferrer accepts the witness with type `bool` … -/
-theorem witness_accepted : inferC (TEnv.forSelf D0 (t "C")) e0 = .ok .bool := by decide
-
-/-- … and CPython raises `TypeError` on it -/
-theorem witness_typeError : (match eval ρ0 e0 with | .typeError => true | _ => false) = true := by decide
-
-theorem D0_wf : D0.WF := by
-  intro c cd p τ hc hp
-  simp only [Decls.findOur, D0, assoc] at hc
-  split at hc
-  · cases hc
-    simp only [assoc] at hp
-    split at hp
-    · cases hp; rfl
-    · cases hp
-  · cases hc
-
-theorem scope0 : (TEnv.forSelf D0 (t "C")).scope =
-    [(selfName, .our (t "C")), (lenName, .builtin lenName (.prim .length))] := rfl
-
-theorem ρ0_conforms : Conforms ρ0 (TEnv.forSelf D0 (t "C")) := by
-  intro x τ h
-  simp only [TEnv.find, scope0, assoc] at h
-  split at h
-  · cases h
-    right
-    rename_i hx
-    refine ⟨.inst 0 (t "C") [(t "s", .str (t "a"))], by simp [ρ0, lookup, ← hx, selfName, t, Text.ofString], ?_⟩
-    refine HasTy.inst (cd := { props := [(t "s", .prim .str)], methods := [], descendants := [] }) rfl ?_ ?_
-    · intro p τ hp
-      simp only [assoc] at hp
-      split at hp
-      · rename_i hps; simp [lookup, ← hps]
-      · cases hp
-    · intro p τ w hp hw
-      simp only [assoc] at hp
-      split at hp
-      · rename_i hps
-        cases hp
-        simp [lookup, ← hps] at hw
-        subst hw
-        exact HasTy.str _
-      · cases hp
-  · split at h
-    · cases h; left; rfl
-    · cases h
-
-theorem ρ0_safe : EnvSafe ρ0 :=
-  { funs := by intro n f vs h; simp [ρ0] at h
-    meths := by intro r n f vs h; simp [ρ0] at h
-    cmp := by intro op a b; simp [ρ0, fops0]
-    arith := by intro ad a b; simp [ρ0, fops0]
-    fmt := by intro v; simp [ρ0] }
-
-theorem ρ0_calls : CallsConform ρ0 (TEnv.forSelf D0 (t "C")) :=
-  { impl := by
-      intro n m ret h
-      simp only [TEnv.find, scope0, assoc] at h
-      repeat' split at h
-      all_goals cases h
-    builtin := by
-      intro n m ret h
-      simp only [TEnv.find, scope0, assoc] at h
-      repeat' split at h
-      all_goals cases h
-      exact ⟨_, rfl⟩
-    funs := by intro n m ret f vs v _ h; simp [ρ0] at h
-    meths := by intro r c cd n ret f vs v _ _ _ h; simp [ρ0] at h }
-
-/-- **The full-strength statement is false**: `self.s < 1` with `s : str` is accepted and raises
-`TypeError` on `self = C(s="a")`  (finding `C07:unchecked:comparison-operand-types`). -/
-theorem sound_full_fails : ¬ Sound := by
-  intro h
-  have hw := witness_typeError
-  rcases h D0 (t "C") ρ0 e0 .bool witness_accepted D0_wf ρ0_conforms ρ0_safe ρ0_calls with h | ⟨v, hv, _⟩
-  · rw [h] at hw; simp at hw
-  · rw [hv] at hw; simp at hw
-
-/-! ## What the inferrer does enforce: no `AttributeError` on `None`
-
-The narrowing logic (facts from `is not None` conjuncts flowing through `and` chains and
-implication antecedents, from `is None` disjuncts through `or`, into generators, keyed by
-canonical representations) is sound. -/
-
-/-- **none_safety** (whole expression language, `any`/`all` included): an invariant the
-inferrer accepts never dereferences `None` (`AttributeError` on `None` for a member or a
-method) on an instance that conforms to the declared types — *without* any assumption on
-operand types, boolean contexts or call arguments (the checks the inferrer lacks).
-
-`key` is the inferrer's key of a node (`_representation_map`; the real one is `canon`, see
-`inferC`); what is needed of it is `KeySound`: expressions that share a key have the same value
-(injective keys trivially; the real canonical strings identify `f"x"` with `"x"`).
-`EnvSafe` / `CallsConform` are about the *parameters* of the evaluation (verification
-functions, methods, float arithmetic): they do not raise `AttributeError` on `None` themselves
-and return values of their declared return type. -/
+/-- **none_safety** (now a corollary): an accepted expression never dereferences `None`. -/
 theorem none_safety {κ : Type} [DecidableEq κ] {key : Expr → κ} (hk : KeySound key)
-    (Γ : TEnv) (ρ : Env) (e : Expr) (τ : Ty)
-    (hwf : Γ.decls.WF) (hconf : Conforms ρ Γ) (hsafe : EnvSafe ρ) (hcalls : CallsConform ρ Γ)
-    (h : infer key Γ [] e = .ok τ) : eval ρ e ≠ .noneDeref :=
-  (safe_expr hk e Γ [] ρ τ
-    { conf := hconf, wf := hwf, safe := hsafe, calls := hcalls, facts := by intro e he; simp at he } h).1
-
-/-- Values of the types the inferrer does track reliably (classes, enumerations, lists,
-`Optional`s — everything but primitives and functions) are of the inferred type: the part of
-`Sound` that holds unconditionally. -/
-theorem sound_nonprimitive {κ : Type} [DecidableEq κ] {key : Expr → κ} (hk : KeySound key)
-    (Γ : TEnv) (ρ : Env) (e : Expr) (τ : Ty) (v : Val)
-    (hwf : Γ.decls.WF) (hconf : Conforms ρ Γ) (hsafe : EnvSafe ρ) (hcalls : CallsConform ρ Γ)
-    (h : infer key Γ [] e = .ok τ) (hτ : τ.isLoose = false) (hv : eval ρ e = .val v) : HasTy Γ.decls v τ := by
-  have g := (safe_expr hk e Γ [] ρ τ
-    { conf := hconf, wf := hwf, safe := hsafe, calls := hcalls, facts := by intro e he; simp at he } h).2 v hv
-  rcases g with g | g
-  · rw [hτ] at g; cases g
-  · exact g
+    (Γ : TEnv) (ρ : Env) (e : Expr) (τ : Ty) (hb : Γ.backend = true)
+    (hw : e.wf = true) (hfn : noFnValuesB key Γ [] e = true)
+    (hwf : Γ.decls.WF) (hconf : Conforms ρ Γ) (hok : EnvOK ρ) (hcalls : CallsOK ρ Γ)
+    (h : infer key Γ [] e = .ok τ) : eval ρ e ≠ .noneDeref := by
+  rcases sound_typed hk Γ ρ e τ hb hw hfn hwf hconf hok hcalls h with he | ⟨v, he, _⟩ <;> rw [he] <;> simp
 
 section
 open Classical
 
 /-- Non-vacuity of the key hypothesis: an inferrer that keys its facts by the expressions
-themselves (`key = id`) is none-safe.  (For the real keys, `canon`, injectivity on the
-sub-expressions of every generated invariant is checked by the correspondence harness:
-stream `canon-injective`.) -/
-theorem none_safety_structural_keys (Γ : TEnv) (ρ : Env) (e : Expr) (τ : Ty)
-    (hwf : Γ.decls.WF) (hconf : Conforms ρ Γ) (hsafe : EnvSafe ρ) (hcalls : CallsConform ρ Γ)
-    (h : infer (fun e => e) Γ [] e = .ok τ) : eval ρ e ≠ .noneDeref :=
-  none_safety (KeySound.of_injective (fun _ _ h => h)) Γ ρ e τ hwf hconf hsafe hcalls h
+themselves (`key = id`) is sound. -/
+theorem sound_structural_keys (Γ : TEnv) (ρ : Env) (e : Expr) (τ : Ty) (hb : Γ.backend = true)
+    (hw : e.wf = true) (hfn : noFnValuesB (fun e => e) Γ [] e = true)
+    (hwf : Γ.decls.WF) (hconf : Conforms ρ Γ) (hok : EnvOK ρ) (hcalls : CallsOK ρ Γ)
+    (h : inferInv (fun e => e) Γ e = .ok τ) :
+    eval ρ e = .indexError ∨ ∃ b, eval ρ e = .val (.bool b) :=
+  sound_invariant (KeySound.of_injective (fun _ _ h => h)) Γ ρ e τ hb hw hfn hwf hconf hok hcalls h
 
 end
 
-/-- The real inferrer (`canon` keys) under the one thing the proof needs of `canon` — which is
-*validated, not verified*: the harness checks on every generated invariant that sub-expressions
-with equal canonical strings are equal up to `f"lit"` = `"lit"`.  (It does not hold for
-identifiers that contain `.`, brackets or spaces, which the Python parser cannot produce.) -/
-theorem none_safety_canon (hcanon : KeySound canon) (D : Decls) (self : Text) (ρ : Env) (e : Expr) (τ : Ty)
-    (hwf : D.WF) (hconf : Conforms ρ (TEnv.forSelf D self)) (hsafe : EnvSafe ρ)
-    (hcalls : CallsConform ρ (TEnv.forSelf D self)) (h : inferC (TEnv.forSelf D self) e = .ok τ) :
-    eval ρ e ≠ .noneDeref :=
-  none_safety hcanon (TEnv.forSelf D self) ρ e τ hwf hconf hsafe hcalls h
+/-- The decidable check of the declarations that the harness evaluates on every real symbol table
+implies the hypothesis `D.WF`. -/
+theorem wfb_sound (D : Decls) (h : D.wfb = true) : D.WF := Decls.wfb_sound h
 
-/-! ### Non-vacuity: narrowing at work on a conforming instance -/
+/-- The Python transpiler's check comes on top of the inference: what `acceptsPy` accepts, the
+inferrer accepts with the same type. -/
+theorem acceptsPy_inferInv (Γ : TEnv) (e : Expr) (τ : Ty) (h : acceptsPy Γ e = .ok τ) :
+    ∃ σ, infer canon Γ.withBackend [] e = .ok σ ∧ Γ.decls.isBool σ = true :=
+  ⟨τ, inferInv_ok h⟩
 
-/-- `C` with `s : str` and `o : Optional[C]` -/
-def D1 : Decls :=
-  { ours := [(t "C", .cls { props := [(t "s", .prim .str), (t "o", .opt (.our (t "C")))], methods := [], descendants := [] })],
-    fns := [], consts := [] }
+/-! ## The former findings: the witnesses are rejected now — and would indeed fail -/
+
+def t (s : String) : Text := Text.ofString s
+
+def cd0 : ClassDecl :=
+  { props := [(t "s", .prim .str), (t "n", .prim .int), (t "o", .opt (.prim .str))], methods := [], mparams := [],
+    descendants := [] }
+
+/-- one class `C` with the properties `s : str`, `n : int`, `o : Optional[str]`, one function `is_word(text: str) -> bool` -/
+def D0 : Decls :=
+  { ours := [(t "C", .cls cd0)],
+    fns := [{ name := t "is_word", params := [.prim .str], returns := .prim .bool }], consts := [] }
 
 def selfE : Expr := .name (t "self")
+def Γ0 : TEnv := TEnv.forSelf D0 (t "C")
 
-/-- `self.o is None or self.o.s == "a"` — accepted through the `is None or …` narrowing -/
-def e1 : Expr := .or [.isNone (.member selfE (t "o")), .cmp (.member (.member selfE (t "o")) (t "s")) .eq (.const (.str (t "a")))]
+/-- F1 `self.s < 1` -/
+def e0 : Expr := .cmp (.member selfE (t "s")) .lt (.const (.int 1))
+/-- F2 `self.n and self.s` -/
+def e5 : Expr := .and [.member selfE (t "n"), .member selfE (t "s")]
+/-- F2 the body `self.s` -/
+def e6 : Expr := .member selfE (t "s")
+/-- F3 `len(self.o) > 0` -/
+def e7 : Expr := .cmp (.funCall lenName [.member selfE (t "o")]) .gt (.const (.int 0))
+/-- F3 `is_word(self.n)`, `is_word()` -/
+def e8 : Expr := .funCall (t "is_word") [.member selfE (t "n")]
+def e9 : Expr := .funCall (t "is_word") []
+/-- F3, Python transpiler: `len(self) > 0` -/
+def e10 : Expr := .cmp (.funCall lenName [selfE]) .gt (.const (.int 0))
+/-- F4 `self.n in self.n`, `self.n in self.s` -/
+def e11 : Expr := .isIn (.member selfE (t "n")) (.member selfE (t "n"))
+def e12 : Expr := .isIn (.member selfE (t "n")) (.member selfE (t "s"))
 
-/-- `not (self.o is not None) or len(self.o.s) > 0` — implication antecedent -/
-def e2 : Expr :=
+theorem F1_rejected : inferInvC Γ0 e0 = .err [.cmpNotOrderable] := by decide
+theorem F2_rejected : inferInvC Γ0 e5 = .err [.valueNotBool, .valueNotBool] ∧ inferInvC Γ0 e6 = .err [.bodyNotBool] := by
+  decide
+theorem F3_rejected : inferInvC Γ0 e7 = .err [.lenArgOptional] ∧ inferInvC Γ0 e8 = .err [.argNotPassable] ∧
+    inferInvC Γ0 e9 = .err [.argCount] := by decide
+/-- the inferrer leaves the kind of the argument of `len` to the transpilers; the Python one refuses it -/
+theorem F3_len_kind : inferInvC Γ0 e10 = .ok .bool ∧ acceptsPy Γ0 e10 = .err [.lenKind] := by decide
+theorem F4_rejected : inferInvC Γ0 e11 = .err [.containerNotContainer] ∧ inferInvC Γ0 e12 = .err [.memberNotSamePrim] := by
+  decide
+
+def fops0 : FloatOps :=
+  { cmp := fun _ _ _ => .val (.bool false), arith := fun _ _ _ => .val (.float []), isZero := fun _ => false, fmt := fun r => r }
+
+/-- `self = C(s="a", n=0, o=None)` -/
+def ρ0 : Env :=
+  { vars := [(t "self", .inst 0 (t "C") [(t "s", .str (t "a")), (t "n", .int 0), (t "o", .none)])],
+    funs := fun n => if n = t "is_word" then some (fun _ => .val (.bool true)) else none,
+    meths := fun _ _ => none, fops := fops0, fmtOther := fun _ => .val (.str []) }
+
+/-- the rejected witnesses do fail in Python: `TypeError` (F1, F3, F4), a non-boolean (F2) -/
+theorem rejected_witnesses_fail :
+    (match eval ρ0 e0 with | .typeError => true | _ => false) = true ∧
+    (match eval ρ0 e5 with | .val (.int _) => true | _ => false) = true ∧
+    (match eval ρ0 e7 with | .typeError => true | _ => false) = true ∧
+    (match eval ρ0 e10 with | .typeError => true | _ => false) = true ∧
+    (match eval ρ0 e11 with | .typeError => true | _ => false) = true := by decide
+
+/-! ## Non-vacuity: every hypothesis of `sound` holds of a concrete meta-model and instance -/
+
+/-- `not (self.o is not None) or (len(self.o) > self.n and is_word(self.o))` — narrowing, a length
+against an integer, a call with a narrowed argument -/
+def e1 : Expr :=
   .impl (.isNotNone (.member selfE (t "o")))
-    (.cmp (.funCall lenName [.member (.member selfE (t "o")) (t "s")]) .gt (.const (.int 0)))
+    (.and [.cmp (.funCall lenName [.member selfE (t "o")]) .gt (.member selfE (t "n")),
+           .funCall (t "is_word") [.member selfE (t "o")]])
 
-/-- the unguarded use is rejected -/
-def e3 : Expr := .cmp (.member (.member selfE (t "o")) (t "s")) .eq (.const (.str (t "a")))
+/-- `self.o is None or self.o == "a" or self.s in self.o` -/
+def e2 : Expr :=
+  .or [.isNone (.member selfE (t "o")), .cmp (.member selfE (t "o")) .eq (.const (.str (t "a"))),
+       .isIn (.member selfE (t "s")) (.member selfE (t "o"))]
 
-/-- the guard in the consequent instead of the antecedent is rejected -/
-def e4 : Expr := .impl (.cmp (.member (.member selfE (t "o")) (t "s")) .eq (.const (.str (t "a")))) (.isNotNone (.member selfE (t "o")))
+theorem e1_accepted : acceptsPy Γ0 e1 = .ok .bool ∧ e1.wf = true ∧ noFnValuesB canon Γ0.withBackend [] e1 = true := by
+  decide
+theorem e2_accepted : acceptsPy Γ0 e2 = .ok .bool ∧ e2.wf = true ∧ noFnValuesB canon Γ0.withBackend [] e2 = true := by
+  decide
 
-example : inferC (TEnv.forSelf D1 (t "C")) e1 = .ok .bool := by decide
-example : inferC (TEnv.forSelf D1 (t "C")) e2 = .ok .bool := by decide
-example : inferC (TEnv.forSelf D1 (t "C")) e3 = .err [.instanceOptional] := by decide
-example : inferC (TEnv.forSelf D1 (t "C")) e4 = .err [.instanceOptional] := by decide
+theorem D0_wf : D0.WF := wfb_sound D0 (by decide)
 
-/-- `self = C(s="a", o=None)` and `self = C(s="a", o=C(s="b", o=None))` -/
-def inner : Val := .inst 1 (t "C") [(t "s", .str (t "b")), (t "o", .none)]
-def ρ1 (o : Val) : Env := { ρ0 with vars := [(t "self", .inst 0 (t "C") [(t "s", .str (t "a")), (t "o", o)])] }
+theorem scope0 : Γ0.scope =
+    [(selfName, .our (t "C")), (lenName, .builtin lenName (.prim .length)),
+     (t "is_word", .verif (t "is_word") (.prim .bool))] := by decide
+
+/-- `self = C(s="a", n=0, o=o)` for `o = None` / `o = "ab"` -/
+def ρ1 (o : Val) : Env :=
+  { ρ0 with vars := [(t "self", .inst 0 (t "C") [(t "s", .str (t "a")), (t "n", .int 0), (t "o", o)])] }
+
+theorem find0 (x : Text) (τ : Ty) (h : Γ0.find x = some τ) :
+    (x = selfName ∧ τ = .our (t "C")) ∨ (x = lenName ∧ τ = .builtin lenName (.prim .length)) ∨
+      (x = t "is_word" ∧ τ = .verif (t "is_word") (.prim .bool)) := by
+  simp only [TEnv.find, scope0, assoc] at h
+  split at h
+  · rename_i hx; cases h; exact Or.inl ⟨hx.symm, rfl⟩
+  · split at h
+    · rename_i hx; cases h; exact Or.inr (Or.inl ⟨hx.symm, rfl⟩)
+    · split at h
+      · rename_i hx; cases h; exact Or.inr (Or.inr ⟨hx.symm, rfl⟩)
+      · cases h
+
+theorem ρ1_conforms (o : Val) (ho : HasTy D0 o (.opt (.prim .str))) : Conforms (ρ1 o) Γ0 := by
+  intro x τ h
+  rcases find0 x τ h with ⟨rfl, rfl⟩ | ⟨rfl, rfl⟩ | ⟨rfl, rfl⟩
+  · right
+    refine ⟨.inst 0 (t "C") [(t "s", .str (t "a")), (t "n", .int 0), (t "o", o)], rfl, ?_⟩
+    refine HasTy.inst (cd := cd0) rfl ?_ ?_
+    · intro p τ hp
+      simp only [cd0, assoc] at hp
+      split at hp
+      · rename_i hps; subst hps; rfl
+      · split at hp
+        · rename_i hps; subst hps; rfl
+        · split at hp
+          · rename_i hps; subst hps; rfl
+          · cases hp
+    · intro p τ w hp hw
+      simp only [cd0, assoc] at hp
+      split at hp
+      · rename_i hps
+        subst hps; cases hp
+        have : w = .str (t "a") := by
+          have : lookup (t "s") [(t "s", Val.str (t "a")), (t "n", .int 0), (t "o", o)] = some (.str (t "a")) := rfl
+          rw [this] at hw; cases hw; rfl
+        subst this; exact HasTy.str _
+      · split at hp
+        · rename_i hps
+          subst hps; cases hp
+          have : w = .int 0 := by
+            have : lookup (t "n") [(t "s", Val.str (t "a")), (t "n", .int 0), (t "o", o)] = some (.int 0) := rfl
+            rw [this] at hw; cases hw; rfl
+          subst this; exact HasTy.int _
+        · split at hp
+          · rename_i hps
+            subst hps; cases hp
+            have : w = o := by
+              have : lookup (t "o") [(t "s", Val.str (t "a")), (t "n", .int 0), (t "o", o)] = some o := rfl
+              rw [this] at hw; cases hw; rfl
+            subst this; exact ho
+          · cases hp
+  · left; rfl
+  · left; rfl
+
+theorem ρ1_ok (o : Val) : EnvOK (ρ1 o) :=
+  { cmp := fun _ _ _ _ _ => ⟨false, rfl⟩, arith := fun _ _ _ => ⟨[], rfl⟩, fmt := fun _ => ⟨[], rfl⟩ }
+
+theorem ρ1_calls (o : Val) : CallsOK (ρ1 o) Γ0 :=
+  { notVar := by
+      intro n τ h hfn
+      rcases find0 n τ h with ⟨rfl, rfl⟩ | ⟨rfl, rfl⟩ | ⟨rfl, rfl⟩
+      · cases hfn
+      · rfl
+      · rfl
+    builtin := by
+      intro n m ret h
+      rcases find0 n _ h with ⟨rfl, h2⟩ | ⟨rfl, h2⟩ | ⟨rfl, h2⟩
+      · cases h2
+      · cases h2; exact ⟨rfl, rfl, rfl, rfl⟩
+      · cases h2
+    funs := by
+      intro n m ret f h hf
+      rcases find0 n _ h with ⟨rfl, h2⟩ | ⟨rfl, h2⟩ | ⟨rfl, h2⟩
+      · cases h2
+      · cases h2
+      · cases h2
+        exact ⟨fun _ => .val (.bool true), rfl, fun _ _ => Or.inr ⟨_, rfl, HasTy.bool true⟩⟩
+    meths := by
+      intro r c cd n ret ps hr hc hm _
+      have hD : Γ0.decls = D0 := rfl
+      rw [hD] at hc
+      have : c = t "C" ∧ cd.methods = [] := by
+        simp only [Decls.findOur, D0, assoc] at hc
+        split at hc
+        · rename_i hcc; cases hc; exact ⟨hcc.symm, rfl⟩
+        · cases hc
+      rw [this.2] at hm
+      cases hm }
+
+/-- `sound` applies: on `o = None` and on `o = "ab"` the two invariants evaluate to booleans
+(computed below as well). -/
+theorem sound_applies (hcanon : KeySound canon) (o : Val) (ho : HasTy D0 o (.opt (.prim .str))) :
+    (eval (ρ1 o) e1 = .indexError ∨ ∃ b, eval (ρ1 o) e1 = .val (.bool b)) ∧
+    (eval (ρ1 o) e2 = .indexError ∨ ∃ b, eval (ρ1 o) e2 = .val (.bool b)) :=
+  ⟨sound hcanon D0 (t "C") (ρ1 o) e1 .bool e1_accepted.1 e1_accepted.2.1 e1_accepted.2.2 D0_wf (ρ1_conforms o ho)
+      (ρ1_ok o) (ρ1_calls o),
+   sound hcanon D0 (t "C") (ρ1 o) e2 .bool e2_accepted.1 e2_accepted.2.1 e2_accepted.2.2 D0_wf (ρ1_conforms o ho)
+      (ρ1_ok o) (ρ1_calls o)⟩
 
 example : (match eval (ρ1 .none) e1 with | .val (.bool true) => true | _ => false) = true := by decide
-example : (match eval (ρ1 inner) e1 with | .val (.bool false) => true | _ => false) = true := by decide
-example : (match eval (ρ1 inner) e2 with | .val (.bool true) => true | _ => false) = true := by decide
-/-- and the rejected one does dereference `None` -/
-example : (match eval (ρ1 .none) e3 with | .noneDeref => true | _ => false) = true := by decide
+example : (match eval (ρ1 (.str (t "ab"))) e1 with | .val (.bool true) => true | _ => false) = true := by decide
+example : (match eval (ρ1 .none) e2 with | .val (.bool true) => true | _ => false) = true := by decide
+example : (match eval (ρ1 (.str (t "ab"))) e2 with | .val (.bool true) => true | _ => false) = true := by decide
 
-/-! ## Boolean contexts (finding C07-F2) and what holds instead -/
+/-- the unguarded use is rejected, and does dereference … here: compare `None` -/
+def e3 : Expr := .cmp (.funCall lenName [.member selfE (t "o")]) .gt (.const (.int 0))
+/-- the guard in the consequent instead of the antecedent is rejected -/
+def e4 : Expr := .impl (.cmp (.funCall lenName [.member selfE (t "o")]) .gt (.const (.int 0))) (.isNotNone (.member selfE (t "o")))
 
-/-- `self.s and self.s` with `s : str`: accepted as `bool` … -/
-def e5 : Expr := .and [.member (.name (t "self")) (t "s"), .member (.name (t "self")) (t "s")]
+example : inferInvC Γ0 e3 = .err [.lenArgOptional] := by decide
+example : inferInvC Γ0 e4 = .err [.lenArgOptional] := by decide
 
-theorem bool_context_accepted : inferC (TEnv.forSelf D0 (t "C")) e5 = .ok .bool := by decide
+/-! ## An evaluator fact that does not depend on the inferrer -/
 
-/-- … and evaluates to the string `"a"`: the inferred type `bool` is wrong
-(finding `C07:unchecked:bool-context`). -/
-theorem bool_context_fails : (match eval ρ0 e5 with | .val (.str _) => true | _ => false) = true := by decide
-
-/-- **sound_partial, boolean part**: if the invariant is *syntactically boolean* (`boolForm`:
-comparisons, `in`, `is (not) None`, `not`, `any`/`all`, `bool` constants, combined by `and`/`or`/
-implication consequents) then, whatever the operand types, its value — if it has one — is a `bool`. -/
+/-- If an expression is *syntactically boolean* (`boolForm`: comparisons, `in`, `is (not) None`, `not`,
+`any`/`all`, `bool` constants, combined by `and`/`or`/implication consequents) then, whatever the
+operand types, its value — if it has one — is a `bool`.  (Before the repair of C07-F2 this was what
+held instead of the boolean part of `sound`.) -/
 theorem bool_result_partial (ρ : Env) (hf : ∀ op a b, IsBoolOut (ρ.fops.cmp op a b)) (e : Expr)
     (h : boolForm e = true) (v : Val) (hv : eval ρ e = .val v) : ∃ b, v = .bool b :=
   bool_result ρ hf e h v hv
-
-/-- Together with `none_safety`: an accepted, syntactically boolean invariant yields a `bool` or
-raises `TypeError` / `IndexError` / another error — never `AttributeError` on `None`.  (Excluding
-the `TypeError` needs the operand checks the inferrer lacks: findings F1, F3, F4.) -/
-theorem accepted_boolForm_outcomes {κ : Type} [DecidableEq κ] {key : Expr → κ} (hk : KeySound key)
-    (Γ : TEnv) (ρ : Env) (e : Expr) (τ : Ty)
-    (hwf : Γ.decls.WF) (hconf : Conforms ρ Γ) (hsafe : EnvSafe ρ) (hcalls : CallsConform ρ Γ)
-    (hf : ∀ op a b, IsBoolOut (ρ.fops.cmp op a b)) (hb : boolForm e = true)
-    (h : infer key Γ [] e = .ok τ) :
-    (∃ b, eval ρ e = .val (.bool b)) ∨ eval ρ e = .typeError ∨ eval ρ e = .indexError ∨ eval ρ e = .otherError := by
-  have hn := none_safety hk Γ ρ e τ hwf hconf hsafe hcalls h
-  cases hev : eval ρ e with
-  | val v =>
-    obtain ⟨b, rfl⟩ := bool_result ρ hf e hb v hev
-    exact Or.inl ⟨b, rfl⟩
-  | noneDeref => exact absurd hev hn
-  | typeError => exact Or.inr (Or.inl rfl)
-  | indexError => exact Or.inr (Or.inr (Or.inl rfl))
-  | otherError => exact Or.inr (Or.inr (Or.inr rfl))
-
-example : boolForm e1 = true ∧ boolForm e2 = true ∧ boolForm e5 = false := by decide
 
 /-! ## The tables read off the source agree with the model -/
 
 /-- the `self.errors.append` sites of `_Inferrer`, per method, are the ones the model was written from
 (a check added to or removed from the inferrer changes this table) -/
 theorem errSites_methods :
-    Gen.Infer.errSites = [("_transform_add_or_sub", 5), ("_transform_any_or_all", 1), ("transform_and", 1),
-      ("transform_assignment", 1), ("transform_comparison", 2), ("transform_for_each", 3), ("transform_for_range", 5),
-      ("transform_formatted_value", 1), ("transform_function_call", 1), ("transform_implication", 1),
-      ("transform_index", 4), ("transform_is_in", 2), ("transform_is_none", 1), ("transform_is_not_none", 1),
-      ("transform_member", 5), ("transform_method_call", 2), ("transform_name", 1), ("transform_not", 1),
-      ("transform_or", 1)] := by decide
+    Gen.Infer.errSites = [("_check_arguments", 2), ("_transform_add_or_sub", 5), ("_transform_any_or_all", 1),
+      ("transform_and", 2), ("transform_assignment", 1), ("transform_comparison", 3), ("transform_for_each", 3),
+      ("transform_for_range", 5), ("transform_formatted_value", 1), ("transform_function_call", 3),
+      ("transform_implication", 3), ("transform_index", 4), ("transform_is_in", 5), ("transform_is_none", 1),
+      ("transform_is_not_none", 1), ("transform_member", 5), ("transform_method_call", 2), ("transform_name", 1),
+      ("transform_not", 2), ("transform_or", 2)] ∧ Gen.Infer.invariantBodySites = 1 := by decide
 
 /-- `_needs_no_brackets` of the source is the model's `needsNoBrackets` -/
 theorem needsNoBrackets_table :
@@ -278,6 +356,11 @@ theorem needsNoBrackets_table :
 
 theorem numeric_tables :
     Gen.Infer.indexTypes = ["INT", "LENGTH"] ∧ Gen.Infer.rangeTypes = ["INT", "LENGTH"] ∧
-      Gen.Infer.arithTypes = ["FLOAT", "INT", "LENGTH"] := by decide
+      Gen.Infer.arithTypes = ["FLOAT", "INT", "LENGTH"] ∧
+      Gen.Infer.orderNumberTypes = ["FLOAT", "INT", "LENGTH"] ∧ Gen.Infer.isInPrimContainers = ["BYTEARRAY", "STR"] := by
+  decide
+
+/-- the Python transpiler computes the length of strings and byte arrays (and lists), and reports the rest -/
+theorem pyLen_table : Gen.Infer.pyLenPrims = ["BYTEARRAY", "STR"] ∧ Gen.Infer.pyLenErrorSites = 1 := by decide
 
 end AasVerif.Props.C07
